@@ -51,6 +51,9 @@ def run(ctx) -> None:
     # ... and the same under @= relocation (RAM and ROM run addresses)
     asm_mc.design_level(ctx, "shadowram", B + 2)
     progs += asm_mc.programs(ctx, "shadowram", B + 2)
+    # labels whose names differ only in letter case
+    asm_mc.design_level(ctx, "caselabels", B + 1)
+    progs += asm_mc.programs(ctx, "caselabels", B + 1)
     ctx.extra["tlc_enumerated_programs"] = len(progs)
     n = 500 if ctx.quick else 8000
     progs += [apr.gen_program(ctx.seed * 7919 + k, size=8 + k % 16) for k in range(n)]
